@@ -663,6 +663,22 @@ func initInt() {
 	)
 	Def(
 		c,
+		"to_uint",
+		func(_ *Thread, args []value.Value) (value.Value, value.Value) {
+			self := args[0]
+			if self.IsSmallInt() {
+				return value.UInt(self.AsSmallInt().ToUInt64()).ToValue(), value.Undefined
+			}
+
+			switch s := self.SafeAsReference().(type) {
+			case *value.BigInt:
+				return value.UInt(s.ToUInt64()).ToValue(), value.Undefined
+			}
+			panic(fmt.Sprintf("expected SmallInt or BigInt, got: %s", self.Inspect()))
+		},
+	)
+	Def(
+		c,
 		"to_uint64",
 		func(_ *Thread, args []value.Value) (value.Value, value.Value) {
 			self := args[0]
